@@ -226,7 +226,7 @@ def run_tunnel(case):
     auth = case.get("auth")
     psrc = case["proxy_src"]
     if psrc == "opt":
-        kw.update(http_proxy_host="proxy.opt", http_proxy_port=3128)
+        kw.update(http_proxy_host="proxy.opt", http_proxy_port="3128" if case.get("pport_str") else 3128)  # (the documentation's examples give the port as a string)
         if auth:
             kw["http_proxy_auth"] = tuple(auth)
         pwant = ("proxy.opt", 3128)
@@ -282,6 +282,8 @@ def run_tunnel(case):
         for k in ENV_KEYS:
             os.environ.pop(k, None)
     dial = (net.resolver_calls[0][0], net.resolver_calls[0][1]) if net.resolver_calls else None
+    if dial is not None and isinstance(dial[1], str) and dial[1].isdigit():
+        dial = (dial[0], int(dial[1]))
     want_dial = pwant if use_proxy else (host, tport)
     if dial != want_dial:
         what = "proxy-bypassed" if use_proxy else ("exempt-host-proxied:" + cause(host, entries, ex, True) if pwant and ex else "unconfigured-proxy-used")
@@ -438,7 +440,7 @@ def tunnels(draw):
         "auth": draw(st.sampled_from([None, None, ["user", "pass"], ["u", "p:w"], ["name", "secret word"], ["svc+ws", "pa+ss+w0rd"], ["u%v", "100%!$&'()*,;="], ["u" * 30, "p" * 27], ["u" * 30, "p" * 28],
                                       ["a-rather-long-user-name@corp.example", "an even longer pass phrase with blanks 0123456789 0123456789 0123456789"]])),
         "api": draw(st.sampled_from(["connect", "create_connection", "app"])), "lower": draw(st.booleans()), "envport": draw(st.booleans()),
-        "phdr": draw(st.booleans()), "quote_all": draw(st.booleans()), "reply_cut": draw(st.sampled_from([None, None, 1, 2, 3, 4, 5, 10, 20])),
+        "phdr": draw(st.booleans()), "pport_str": draw(st.booleans()), "quote_all": draw(st.booleans()), "reply_cut": draw(st.sampled_from([None, None, 1, 2, 3, 4, 5, 10, 20])),
     }
     if draw(st.integers(0, 3)) == 0:
         return {"host": host, "redirect_to": draw(st.sampled_from(NAMES + IP_HOSTS[:6] + ["example.com", "api.example.com", "badexample.com"])),
